@@ -1337,6 +1337,13 @@ class QuicConnection:
             )
 
         self._close_at = now + self._idle_timeout()
+
+        # When restarting after a Retry or Version Negotiation packet, the packets
+        # of the previous attempt are abandoned along with their packet spaces:
+        # remove them from the bytes in flight.
+        for space in self._loss.spaces:
+            self._loss.discard_space(space)
+
         self._initialize(self._peer_cid.cid)
 
         self.tls.handle_message(b"", self._crypto_buffers)
